@@ -42,6 +42,20 @@ Theorem C37_config_twice : forall decls cfg, cfg_dup cfg = true -> configure dec
 Proof. exact config_twice. Qed.
 Print Assumptions C37_config_twice.
 
+(* a user module forwarding a built-in module: outside class K4 the guard behaves as the reference says, for
+   every action, prefix and show/hide list; in particular a plain or hide-filtered forward keeps the guard *)
+Theorem C37_forwarded_builtin : forall a pfx e, known_K4 a pfx e = false ->
+  fwd_builtin a pfx e = spec_fwd_builtin a pfx e.
+Proof. exact fwd_builtin_ok. Qed.
+Print Assumptions C37_forwarded_builtin.
+Theorem C37_forwarded_builtin_plain_guard : forall e, allow_var e marker_name = true ->
+  fwd_builtin FAssignBuiltin None e = FErr.
+Proof. exact fwd_builtin_plain_guard. Qed.
+Print Assumptions C37_forwarded_builtin_plain_guard.
+Theorem C37_refuted_forwarded_builtin : exists a pfx e, known_K4 a pfx e = true /\ fwd_builtin a pfx e <> spec_fwd_builtin a pfx e.
+Proof. exists FAssignBuiltin, (Some "m-"%string), EAll. destruct refuted_fwd_builtin as (A & B & _). split; assumption. Qed.
+Print Assumptions C37_refuted_forwarded_builtin.
+
 (* built-in modules can be neither configured nor assigned to (the model's constants; the tie is the
    correspondence on sass:math) *)
 Theorem C37_builtin_guard : builtin_configure true = false /\ builtin_assign = false.
